@@ -38,10 +38,14 @@ const P_PAYLOADS: &str = "#define TASK_GROUP_SIZE 32\n\nstruct PayloadSmall\n{\n
 const P_ERR_DUP: &str = "float4 VSMAIN() : SV_Position { return float4(0.0f, 0.0f, 0.0f, 1.0f); }\nfloat4 PSMAIN() : SV_Target0 { return float4(1.0f, 1.0f, 1.0f, 1.0f); }\nPipeline Demo\n{\n    VertexShader = VSMAIN;\n    PixelShader = PSMAIN;\n    CullMode = Back;\n    WindingOrder = Clockwise;\n    DepthTargetFormat = \"D32_FLOAT\";\n    VertexShader = VSMAIN;\n    PixelShader = PSMAIN;\n    CullMode = Back;\n    WindingOrder = Clockwise;\n    DepthTargetFormat = \"D32_FLOAT\";\n}\n";
 const P_ERR_DUP2: &str = "const SamplerState g_s = StaticSampler\n{\n    Filter = MIN_MAG_MIP_LINEAR;\n    AddressU = Clamp;\n    AddressV = Clamp;\n    AddressW = Clamp;\n    Filter = MIN_MAG_MIP_LINEAR;\n    AddressU = Clamp;\n    AddressV = Clamp;\n    AddressW = Clamp;\n};\nvoid main() {}\n";
 
+// paths that need the root anchor `::` because a nearer namespace has the same name: whether the anchor is written is
+// decided from a walk over the name map
+const P_ANCHORS: &str = "namespace X {\n    int h() { return 1; }\n}\n\nnamespace A {\n    namespace X {\n        int h() { return 2; }\n    }\n\n    int f() {\n        return ::X::h();\n    }\n}\n\nvoid entry() {\n    A::f();\n}\nnamespace Y { int h() { return 5; } }\nnamespace B { namespace Y { int h() { return 6; } } int g() { return ::Y::h() + Y::h(); } }\nnamespace Z { int k() { return 7; } }\nnamespace C { namespace Z { int k() { return 8; } } namespace D { int e() { return ::Z::k() + Z::k(); } } }\n";
+
 fn sources() -> Vec<(String, String)> {
     let mut v: Vec<(String, String)> = vec![
         ("names".into(), P_NAMES.into()), ("groups".into(), P_GROUPS.into()), ("globals".into(), P_GLOBALS.into()),
-        ("templates".into(), P_TEMPLATES.into()), ("err-a".into(), P_ERR_A.into()), ("err-b".into(), P_ERR_B.into()), ("layout".into(), P_LAYOUT.into()), ("err-enum".into(), P_ERR_ENUM.into()), ("err-enum2".into(), P_ERR_ENUM2.into()), ("literals".into(), P_LITERALS.into()), ("positions".into(), P_POSITIONS.into()), ("payloads".into(), P_PAYLOADS.into()), ("err-dup".into(), P_ERR_DUP.into()), ("err-dup2".into(), P_ERR_DUP2.into()),
+        ("templates".into(), P_TEMPLATES.into()), ("err-a".into(), P_ERR_A.into()), ("err-b".into(), P_ERR_B.into()), ("layout".into(), P_LAYOUT.into()), ("err-enum".into(), P_ERR_ENUM.into()), ("err-enum2".into(), P_ERR_ENUM2.into()), ("literals".into(), P_LITERALS.into()), ("positions".into(), P_POSITIONS.into()), ("payloads".into(), P_PAYLOADS.into()), ("anchors".into(), P_ANCHORS.into()), ("err-dup".into(), P_ERR_DUP.into()), ("err-dup2".into(), P_ERR_DUP2.into()),
     ];
     let root = std::env::var("RSSL_REPO").unwrap_or("/repo".into());
     for dir in ["tests/basic", "hlsl/tests", "msl/tests"] {
